@@ -10,7 +10,8 @@ RULE = ("(a) full grid itersLimit in 1..5 x eps in {3,1.5,1,0.9,0.5,0.1,0.01} x 
         "equal to attainable Hoelder lengths pow(2^-j,1/N) (and one ulp either side); (c) seeded random scenarios over all objective "
         "families with refinement on and off and pre-batched iterations; (d) multi-step use: Solve, the user raises (or lowers) parameters.itersLimit, Solve again; local refinement (DoLocalRefinement or refineSolution) before a Solve that still has budget. The stop point, the evaluation count and "
         "the reported accuracy are recomputed from the authenticated trial log. Non-trivial: the run made >= 2 trials; "
-        "distinct = distinct (N, eps, itersLimit, family, trial count, stop reason).")
+        "distinct = distinct (N, eps, itersLimit, family, trial count, stop reason)."
+       " Parameter edits between calls go through the caller's own SolverParameters object every other time.")
 ASSUMPTIONS = ["Hoelder length of an interval is pow(x_r-x_l, 1/N) evaluated by libm pow on the same doubles the solver used",
                "eps > 1: stopping after one or after two trials are both accepted (the statement is silent on whether seeding [0,1] counts)",
                "single-trial runs: reported accuracy inf or 1 both accepted"]
